@@ -334,25 +334,37 @@ Definition approximate_catmull (points : list Pos) : outcome (list Pos) :=
 
 (* the osu!-mode simplification loop of calculate_subpath.
    i = index of the head of l in sub_path, n = sub_path.len(),
-   prev = sub_path[i-1] *)
-Fixpoint simplify_loop (l : list Pos) (i n : Z) (prev : Pos) (last_start : option Pos)
-    (removed : F64) (acc : list Pos) (opt : F64) : list Pos * F64 :=
-  match l with
-  | [] => (acc, opt)
-  | curr :: t =>
-      match last_start with
-      | None => simplify_loop t (i + 1) n curr (Some curr) removed (acc ++ [curr]) opt
-      | Some ls =>
-          let dist_from_start := f64_of_f32 (pdist ls curr) in
-          let removed' := D.add removed (f64_of_f32 (pdist prev curr)) in
-          if D.gt dist_from_start catmull_simplify_dist
-             || ((i + 1) mod catmull_segment_len =? 0)
-             || (i =? n - 1)
-          then simplify_loop t (i + 1) n curr None D.zero (acc ++ [curr])
-                             (D.add opt (D.sub removed' dist_from_start))
-          else simplify_loop t (i + 1) n curr (Some ls) removed' acc opt
-      end
-  end.
+   prev = sub_path[i-1].
+   Written once over a point type, a scalar type, the distance between two
+   points, addition, subtraction, zero and the "farther than 6 px" test; the
+   model is the IEEE instance below, Proofs/SimplifyExact reads it over R. *)
+Section Simplify.
+  Context {P T : Type}.
+  Variables (dist_g : P -> P -> T) (add_g sub_g : T -> T -> T) (zero_g : T) (far_g : T -> bool).
+  Fixpoint simplify_loop_g (l : list P) (i n : Z) (prev : P) (last_start : option P)
+      (removed : T) (acc : list P) (opt : T) : list P * T :=
+    match l with
+    | [] => (acc, opt)
+    | curr :: t =>
+        match last_start with
+        | None => simplify_loop_g t (i + 1) n curr (Some curr) removed (acc ++ [curr]) opt
+        | Some ls =>
+            let dist_from_start := dist_g ls curr in
+            let removed' := add_g removed (dist_g prev curr) in
+            if far_g dist_from_start
+               || ((i + 1) mod catmull_segment_len =? 0)
+               || (i =? n - 1)
+            then simplify_loop_g t (i + 1) n curr None zero_g (acc ++ [curr])
+                                 (add_g opt (sub_g removed' dist_from_start))
+            else simplify_loop_g t (i + 1) n curr (Some ls) removed' acc opt
+        end
+    end.
+End Simplify.
+
+(* f64::from(a.distance(b)); dist_from_start > 6.0 *)
+Definition simplify_loop : list Pos -> Z -> Z -> Pos -> option Pos -> F64 -> list Pos -> F64 -> list Pos * F64 :=
+  simplify_loop_g (fun a b => f64_of_f32 (pdist a b)) D.add D.sub D.zero
+                  (fun x => D.gt x catmull_simplify_dist).
 
 Definition catmull_simplify (sub_path : list Pos) (opt : F64) : list Pos * F64 :=
   simplify_loop sub_path 0 (Z.of_nat (length sub_path)) pos0 None D.zero [] opt.
@@ -370,21 +382,27 @@ Definition theta_loop (theta_start theta_end : F64) : outcome F64 :=
   iter_fuel (fun te : F64 => if D.lt te theta_start then inl (D.add te d_two_pi) else inr (Done te))
             theta_fuel theta_end.
 
+(* the circum-centre (Cartesian formula of the source), written once over
+   abstract field operations: the model uses the IEEE binary32 instance,
+   Proofs/ArcExact reads it over the reals.
+     d = 2 * (a.x * (b - c).y + b.x * (c - a).y + c.x * (a - b).y)
+     x = (a_sq * (b - c).y + b_sq * (c - a).y + c_sq * (a - b).y) / d
+     y = (a_sq * (c - b).x + b_sq * (a - c).x + c_sq * (b - a).x) / d *)
+Definition arc_centre_g {T} (add sub mul div : T -> T -> T) (two : T) (ax ay bx by_ cx cy : T) : T * T :=
+  let d := mul two (add (add (mul ax (sub by_ cy)) (mul bx (sub cy ay))) (mul cx (sub ay by_))) in
+  let a_sq := add (mul ax ax) (mul ay ay) in
+  let b_sq := add (mul bx bx) (mul by_ by_) in
+  let c_sq := add (mul cx cx) (mul cy cy) in
+  (div (add (add (mul a_sq (sub by_ cy)) (mul b_sq (sub cy ay))) (mul c_sq (sub ay by_))) d,
+   div (add (add (mul a_sq (sub cx bx)) (mul b_sq (sub ax cx))) (mul c_sq (sub bx ax))) d).
+
 Definition circular_arc_properties (lm : Libm) (a b c : Pos) : outcome (option ArcProps) :=
   if S.le (S.abs (S.sub (S.mul (S.sub (py b) (py a)) (S.sub (px c) (px a)))
                         (S.mul (S.sub (px b) (px a)) (S.sub (py c) (py a))))) S.eps
   then Done None
   else
-    let d := S.mul s2 (S.add (S.add (S.mul (px a) (py (psub b c))) (S.mul (px b) (py (psub c a))))
-                             (S.mul (px c) (py (psub a b)))) in
-    let a_sq := plen_sq a in
-    let b_sq := plen_sq b in
-    let c_sq := plen_sq c in
-    let centre := mkPos
-      (S.div (S.add (S.add (S.mul a_sq (py (psub b c))) (S.mul b_sq (py (psub c a))))
-                    (S.mul c_sq (py (psub a b)))) d)
-      (S.div (S.add (S.add (S.mul a_sq (px (psub c b))) (S.mul b_sq (px (psub a c))))
-                    (S.mul c_sq (px (psub b a)))) d) in
+    let '(ccx, ccy) := arc_centre_g S.add S.sub S.mul S.div s2 (px a) (py a) (px b) (py b) (px c) (py c) in
+    let centre := mkPos ccx ccy in
     let d_a := psub a centre in
     let d_c := psub c centre in
     let radius := plen d_a in
@@ -585,11 +603,12 @@ Section WithLibm.
   Variable lm : Libm.
   Variable fuel : positive.
 
-  (* calculate_path: note the early return on empty points BEFORE path.clear() *)
+  (* calculate_path: path.clear(); *optimized_len = 0.0; then the early return on
+     empty points (the vertices buffer is left as it was) *)
   Definition calculate_path_L0 (mode : Z) (pts : list PathControlPoint) (bufs : CurveBuffers)
       (opt : F64) : outcome (CurveBuffers * F64) :=
     match pts with
-    | [] => Done (bufs, opt)
+    | [] => Done (mkCB [] (cb_lengths bufs) (cb_vertices bufs) (cb_bezier bufs), D.zero)
     | _ =>
         let verts := map pc_pos pts in
         obind (cpath_loop (approximate_bezier_L0 fuel) lm (length pts) 0 0 (length pts)
